@@ -5,11 +5,13 @@ package core_test
 // C33: parallel (block-access-list driven) block execution agrees with sequential
 // execution, and a block whose access list differs from the true one is rejected.
 //
-// One case = one worldgen Amsterdam chain of 1-2 blocks whose LAST block (1-14
-// transactions; worldgen plans plus engineered interactions injected by this file:
-// a contract created by tx i and called by tx j, an account funded by tx i that spends
-// in tx j, the same contract called repeatedly, EIP-7002/7251/8282 request contracts)
-// is held back and examined:
+// One case = one worldgen Amsterdam chain of 1-2 blocks, in half of the cases on top of
+// 1-270 filler blocks without transactions (c33Deepen), whose LAST block (worldgen plans
+// plus engineered interactions injected by this file: a contract created by tx i and
+// called by tx j, an account funded by tx i that spends in tx j, the same contract
+// called repeatedly, EIP-7002/7251/8282 request contracts, an account created and
+// destroyed mid-block, 2-24 transactions folding the BLOCKHASH of many ancestors into
+// storage and a log) is held back and examined:
 //
 //   - truth: the sequential processor (vm.Config.DisableParallelExecution) on the
 //     parent state; it must reproduce the chain maker's header (sanity of the domain);
@@ -29,8 +31,10 @@ package core_test
 //     an error on the parallel chain AND on the sequential chain, the head must stay at
 //     the parent and no state may be recorded for the mutated block.
 //
-// The oracle is schedule independent; schedules are only sampled (GOMAXPROCS,
-// repetition, noise goroutines, -race in the thorough tier).
+// The oracle is schedule independent; schedules are sampled (GOMAXPROCS, repetition,
+// noise goroutines, -race in the thorough tier) and, in half of the parallel runs,
+// steered through the chain context handed to the processor (c33GatedChain: header
+// lookups for old ancestors by different workers are made to alternate).
 
 import (
 	"bytes"
@@ -290,13 +294,13 @@ func (rc *c33ReaderCall) expected(n uint64, hashOf func(number uint64) common.Ha
 // blocks). Returns the number of filler blocks.
 func c33Deepen(rt *rapid.T, w *worldgen.World) int {
 	f := 0
-	switch c33Pick(rt, "depth-class", []int{9, 3, 4, 3, 1}) {
+	switch c33Pick(rt, "depth-class", []int{20, 6, 9, 4, 1}) {
 	case 1:
 		f = 1 + ep.Uniform(rt, "depth-small", 4)
 	case 2:
 		f = 5 + ep.Uniform(rt, "depth-medium", 26)
 	case 3:
-		f = 31 + ep.Uniform(rt, "depth-large", 70)
+		f = 31 + ep.Uniform(rt, "depth-large", 60)
 	case 4:
 		f = 250 + ep.Uniform(rt, "depth-window", 12) // around the 256 block BLOCKHASH window
 	}
